@@ -107,6 +107,38 @@ theorem activation_gradient_is_jacobian_transpose (act : Act) (n c : Nat) (s dd 
   rw [hfun]
   exact h
 
+/-- … and of the whole inner product `⟨direction, output⟩ = Σ_{i', l} direction[i', l] · output[i', l]`: the rows
+`i' ≠ i` of the output do not depend on `signal[i, k]` (every activation acts row by row), so the derivative of the full
+sum is the same entry of `gradient`. -/
+theorem activation_gradient_is_gradient_of_inner_product (act : Act) (n c : Nat) (s dd : Nat → Nat → ℝ) (i k : Nat)
+    (hi : i < n) (hk : k < c) (hrelu : act = .relu → s i k ≠ 0) :
+    ∃ G, actGradient act (mk' n c s) (mk' n c dd) = .ok G ∧
+      HasDerivAt (fun t => ∑ i' ∈ range n, ∑ l ∈ range c,
+          dd i' l * (actOutput act (mk' n c (updRow s i k t))).get i' l) (G.get i k) (s i k) := by
+  obtain ⟨G, hG, hrow⟩ := activation_gradient_is_jacobian_transpose act n c s dd i k hi hk hrelu
+  refine ⟨G, hG, ?_⟩
+  have h := HasDerivAt.fun_sum (u := range n)
+    (A := fun i' t => ∑ l ∈ range c, dd i' l * (actOutput act (mk' n c (updRow s i k t))).get i' l)
+    (A' := fun i' => if i' = i then G.get i k else 0) (x := s i k)
+    (by
+      intro i' hi'
+      by_cases h : i' = i
+      · subst h
+        simp only [if_true]
+        exact hrow
+      · simp only [if_neg h]
+        have hconst : (fun t => ∑ l ∈ range c, dd i' l * (actOutput act (mk' n c (updRow s i k t))).get i' l) =
+            fun _ => ∑ l ∈ range c, dd i' l * Spec.actFn act c (s i') l := by
+          funext t
+          apply Finset.sum_congr rfl
+          intro l hl
+          rw [actOutput_mk', get_mk'_of_lt _ (mem_range.mp hi') (mem_range.mp hl), updRow_of_ne s i k t h]
+        rw [hconst]
+        exact hasDerivAt_const _ _)
+  refine h.congr_deriv ?_
+  rw [Finset.sum_ite_eq']
+  simp only [mem_range, hi, if_true]
+
 /-- non-vacuity of the ReLU side condition -/
 example : (Act.relu = .relu → (fun (_ _ : Nat) => (1 : ℝ)) 0 0 ≠ 0) := fun _ => one_ne_zero
 
@@ -301,18 +333,35 @@ theorem prediction_no_channel (n : Nat) (o : Nat → Nat → ℝ) :
   unfold computePredictions
   simp
 
-/-- **sampler_subset.** Each row of the sampled adjacency is a sublist of the stored *non-zero* entries of that row
-(the neighbours; an explicitly stored zero is not a neighbour — repaired code), of size `min(deg, sample_size)` where
-`deg` is the number of neighbours, and every kept column is a genuine neighbour (a stored entry with a non-zero value):
-the sampled graph is a subgraph.  The kept entries get weight 1 (the weights of the graph are not kept).  For every legal
-draw of `np.random.choice` (`choiceOk`: distinct positions below `deg`, `min(deg, sample_size)` of them). -/
-theorem sampler_subset (rows : List (List (Nat × ℝ))) (choice : List (List Nat)) (k i : Nat) (hi : i < rows.length)
-    (hch : choiceOk (dropZeros (rows.getD i [])).length k (choice.getD i []) = true) :
-    ((sampleRows rows choice).getD i []).Sublist ((dropZeros (rows.getD i [])).map (·.1)) ∧
-      ((sampleRows rows choice).getD i []).length = min (dropZeros (rows.getD i [])).length k ∧
-      ∀ j ∈ (sampleRows rows choice).getD i [], ∃ v, (j, v) ∈ rows.getD i [] ∧ v ≠ 0 := by
-  rw [sampleRows_getD rows choice i hi]
-  exact sampleRow_spec (rows.getD i []) (choice.getD i []) k hch
+/-- the summed stored value of column `j` in row `i` of a CSR matrix is the entry of the matrix it denotes -/
+theorem entrySum_eq_csrToMat (m : Csr ℝ) (i j : Nat) (hi : i < m.nRow) (hj : j < m.nCol) :
+    entrySum (csrEntries m i) j = (csrToMat m).get i j := by
+  rw [csrToMat_get m i j hi hj]
+  unfold entrySum
+  simp only [beq_iff_eq]
+
+/-- **sampler_subset.** For a CSR matrix `m` (whatever its stored form: unsorted rows, explicit zeros, un-summed —
+even cancelling — duplicates; repaired code: `sum_duplicates` and `eliminate_zeros` before sampling) and every legal
+draw of `np.random.choice` (`choiceOk`: distinct positions below `deg`, `min(deg, sample_size)` of them, where `deg` is
+the number of neighbours = non-zero entries of row `i` of the matrix `m` denotes): row `i` of the sampled adjacency is a
+sublist of the neighbours, without repetition, of size `min(deg, sample_size)`, and every kept column `j` is an edge of
+the graph (`csrToMat m` has a non-zero entry at `(i, j)`): the sampled graph is a subgraph.  The kept entries get
+weight 1 (the weights of the graph are not kept). -/
+theorem sampler_subset (m : Csr ℝ) (choice : List (List Nat)) (k i : Nat) (hi : i < m.nRow)
+    (hch : choiceOk (neighbours m.nCol (csrEntries m i)).length k (choice.getD i []) = true) :
+    ((sampleRows m.nCol (tab m.nRow (csrEntries m)) choice).getD i []).Sublist (neighbours m.nCol (csrEntries m i)) ∧
+      ((sampleRows m.nCol (tab m.nRow (csrEntries m)) choice).getD i []).length =
+        min (neighbours m.nCol (csrEntries m i)).length k ∧
+      ((sampleRows m.nCol (tab m.nRow (csrEntries m)) choice).getD i []).Nodup ∧
+      ∀ j ∈ (sampleRows m.nCol (tab m.nRow (csrEntries m)) choice).getD i [], j < m.nCol ∧ (csrToMat m).get i j ≠ 0 := by
+  have hrow : (tab m.nRow (csrEntries m)).getD i [] = csrEntries m i := by
+    rw [tab_getD, if_pos hi]
+  rw [sampleRows_getD m.nCol _ choice i (by simpa using hi), hrow]
+  obtain ⟨h1, h2, h3, h4⟩ := sampleRow_spec m.nCol (csrEntries m i) (choice.getD i []) k hch
+  refine ⟨h1, h2, h3, ?_⟩
+  intro j hj
+  obtain ⟨hjn, hne⟩ := h4 j hj
+  exact ⟨hjn, by rwa [← entrySum_eq_csrToMat m i j hi hjn]⟩
 
 /-- non-vacuity: degree 3, sample size 2, positions `[2, 0]` -/
 example : choiceOk 3 2 [2, 0] = true := by decide
